@@ -389,6 +389,8 @@ def _raise_harness_callback_errors(loop) -> None:
     here = os.path.dirname(os.path.abspath(__file__)) + os.sep
     for ctx in loop.callback_exceptions:
         exc = ctx.get("exception")
+        if exc is not None and type(exc).__name__ == "_CaseCpuLimit":
+            raise exc            # the runner's processor-time guard fired inside a callback: let it judge where (original traceback kept)
         if exc is None or isinstance(exc, (asyncio.CancelledError, VirtualDeadlock)):
             continue
         frames = traceback.extract_tb(exc.__traceback__)
